@@ -59,7 +59,10 @@ func (f *MultipleValueProg1) Call(s *slip.Scope, args slip.List, depth int) (res
 		if list, ok := arg.(slip.List); ok {
 			arg = slip.ListToFunc(s, list, d2)
 		}
-		_ = s.Eval(arg, d2)
+		switch exit := s.Eval(arg, d2).(type) {
+		case *slip.ReturnResult, *GoTo:
+			return exit
+		}
 	}
 	return
 }
